@@ -169,8 +169,11 @@ COMMON = [
     Rule("nullptr", r'\bnullptr\b', 'NULL'),
     Rule("static_cast", r'\bstatic_cast<\s*([^<>]+?)\s*>\s*\(', r'(\1)('),
     Rule("throw.runtime_error", r'throw\s+std::runtime_error\s*\(', 'SQ_THROW('),
-    Rule("std.copy", r'\bstd::copy\s*\(', 'SQ_COPY('),
-    Rule("std.fill", r'\bstd::fill\s*\(', 'SQ_FILL('),
+    # std::copy(p,p+n,d) / std::fill(p,p+n,v): iterator pair (p,p+n) -> (p,n)
+    Rule("std.copy", r'\bstd::copy\s*\(\s*([\w.>-]+)\s*,\s*\1\s*\+\s*([\w.>-]+)\s*,\s*([\w.>-]+)\s*\)', r'sq_copyn(\1,\2,\3)'),
+    Rule("std.fill", r'\bstd::fill\s*\(\s*([\w.>-]+)\s*,\s*\1\s*\+\s*([\w.>-]+)\s*,\s*([\w.>-]+)\s*\)', r'sq_filln(\1,\2,\3)'),
+    Rule("std.copy.other", r'\bstd::copy\s*\(', 'SQ_COPY_UNSUPPORTED('),
+    Rule("std.fill.other", r'\bstd::fill\s*\(', 'SQ_FILL_UNSUPPORTED('),
     Rule("std.swap", r'\bstd::swap\s*\(', 'SQ_SWAP('),
     Rule("std.abs", r'\bstd::abs\s*\(', 'fabs('),
     Rule("assert", r'(?<![\w_])assert\s*\(', 'SQ_ASSERT('),
@@ -182,16 +185,22 @@ COMMON = [
 ]
 
 # a method of SU_vector: `other`/`V` reference parameters become pointers
-def suv_method_rules(ref_params=()):
-    rs = [members_rule("suv", SUV_MEMBERS)]
+def suv_method_rules(ref_params=("other", "V")):
+    """a method of SU_vector: bare members -> self->member; reference parameters -> pointers"""
+    rs = []
     for p in ref_params:
         rs.append(Rule("ref." + p, r'(?<![\w.>])' + p + r'\s*\.\s*', p + '->'))
         rs.append(Rule("addr." + p, r'&\s*' + p + r'\b(?!->)', p))
+    rs.append(members_rule("suv", SUV_MEMBERS))
     rs.append(Rule("this.eq", r'\bthis\s*==', 'self=='))
+    rs.append(Rule("this.arrow", r'\bthis\s*->\s*', 'self->'))
     rs.append(Rule("return.this", r'return\s*\(?\s*\*\s*this\s*\)?\s*;', 'return;'))
     rs.append(Rule("dealloc", r'(?<![\w>.])deallocate_mem\s*\(\s*\)', 'su_deallocate_mem(self,self->components)'))
-    rs.append(Rule("alloc_aligned", r'(?<![\w>.])alloc_aligned\s*\(\s*self->dim\s*,\s*self->size\s*,\s*self->components\s*,\s*self->ptr_offset\s*\)',
-                   'su_alloc_aligned(self->dim,self->size,&self->components,&self->ptr_offset)'))
+    rs.append(Rule("alloc_aligned", r'(?<![\w>.])alloc_aligned\s*\(\s*([^,()]+?)\s*,\s*([^,()]+?)\s*,\s*self->components\s*,\s*self->ptr_offset\s*\)\s*;',
+                   r'su_alloc_aligned(\1,\2,&self->components,&self->ptr_offset); SQ_PROPAGATE;'))
+    rs.append(Rule("new.double", r'\bnew\s+double\s*\[\s*([^\]]+)\]', r'sq_new_double(\1)'))
+    # out-parameter form (CBMC 6.11 runs out of memory on is_fresh(__CPROVER_return_value) followed by a havoc of the fresh object)
+    rs.append(Rule("new.double.out", r'self->components\s*=\s*\(?\s*sq_new_double\(([^()]+)\)\s*\)?\s*;', r'sq_new_double_o(\1,&self->components); SQ_PROPAGATE;'))
     return rs
 
 
@@ -218,12 +227,36 @@ FACTORY = [
 ]
 # constructor initialiser list `a(x), b(y)` -> assignments in the order written (checked against declaration order by the caller)
 CTOR_INIT = [
+    Rule("ref.V", r'(?<![\w.>])V\s*\.\s*', 'V->'),
+    Rule("ref.comp", r'(?<![\w.>])comp\s*\.\s*size\(\)', 'comp_n'),
+    Rule("ref.m", r'(?<![\w.>])m->size1', 'm->size1'),
     Rule("ctor.init", r'\b(dim|size|components|ptr_offset|isinit_d|isinit)\s*\(((?:[^()]|\([^()]*\))*)\)\s*,?', r'self->\1=(\2);'),
     Rule("nullptr", r'\bnullptr\b', 'NULL'),
 ]
 
+PROXY_ACCESS = [
+    Rule("proxy.member", r'\bproxy\.suv([12])\.', r'proxy->suv\1->'),
+    Rule("proxy.steal", r'\bproxy\.mayStealArg([12])\(\)', r'mayStealArg\1(proxy)'),
+]
+
+GUARDS = [
+    Rule("g.this", r'\*\s*this\b', '(*self)'),
+    Rule("g.dim", r'\b(suv[12])\.Dim\(\)', r'\1->dim'),
+    Rule("g.flags", r'detail::(Arg[12]Movable)', r'SQ_\1'),
+    Rule("g.mkproxy", r'return\s*\(\s*detail::(\w+?)(?:<Op>)?\s*\{([^}]*)\}\s*\)\s*;',
+         lambda m: 'SQ_MKPROXY_%s(ret,%s); return;' % (m.group(1), re.sub(r'(?<![\w.>*(])(other|suv1|suv2)(?![\w.])', r'(*\1)', m.group(2)))),
+]
+
+# R2 (DESIGN 2.1): the kernels' target store goes through the wrapper
+R2 = [
+    Rule("R2.acc", r'\(?\s*\b(suv_new|suv3|target)\s*\)?\s*\.\s*components\s*\[([^\]]+)\]\s*\+=\s*([^;]+);', r'SQ_ACC(\1,\2,\3);'),
+]
+
 RULESETS = {
     "common": COMMON,
+    "r2": R2,
+    "guards": GUARDS,
+    "proxy_access": PROXY_ACCESS,
     "suv_method": suv_method_rules(),
     "suv_locals": SUV_LOCALS,
     "factory": FACTORY,
@@ -303,13 +336,18 @@ def instantiate(template_text, report=None, defines=None):
                 cut = cut_function(kv['file'], kv['sig'], int(kv.get('nth', 0)))
                 ctx = "%s:%d" % (cut.file, cut.line)
                 part = kv.get('part', 'body')
-                text = cut.body if part == 'body' else (cut.init if part == 'init' else cut.init + '\n' + cut.body)
                 rules = []
                 for rsn in kv.get('rules', 'common').split(','):
                     if rsn not in RULESETS:
                         raise ExtractionError("unknown rule set " + rsn)
                     rules += RULESETS[rsn]
-                text = apply_rules(text, subs, fired, ctx)   # specific rules first (they see the C++ text)
+                if part == 'all':      # constructor: initialiser list (-> assignments, in the order written) followed by the body
+                    raw = apply_rules(cut.init + '\n/*@@BODY@@*/\n' + cut.body, subs, fired, ctx)   # specific rules see the C++ text
+                    ini, bod = raw.split('/*@@BODY@@*/')
+                    text = apply_rules(ini, RULESETS["ctor_init"], fired, ctx) + '\n' + bod
+                else:
+                    text = cut.body if part == 'body' else cut.init
+                    text = apply_rules(text, subs, fired, ctx)   # specific rules first (they see the C++ text)
                 text = apply_rules(text, rules, fired, ctx)
                 if loops:
                     text = insert_loop_contracts(text, loops, ctx)
@@ -329,6 +367,14 @@ def instantiate(template_text, report=None, defines=None):
                 text = apply_rules(text, rules, fired, rel)
                 out.append('/* ---- kernel %s ---- */' % rel)
                 out.append(text)
+            continue
+        if st.startswith('//@TRAITS'):
+            import traits
+            ttext, tn = traits.c_text()
+            out.append(ttext)
+            for k, v in tn.items():
+                fired["traits." + k] = fired.get("traits." + k, 0) + v
+            i += 1
             continue
         out.append(ln)
         i += 1
